@@ -31,6 +31,7 @@ PROPS["C10"] = {
             "FuzzC10Decode": FUZZ(90, configs=["default"]), "FuzzC10AnyLen": FUZZ(60, configs=["default"]),
             "TestC10DecodeList": LIST(),
             "TestC10Lengths": LIST(),
+            "TestC10Identity": LIST(),
             "TestC10AnyLen": T(6000, 200000),
             "TestC10Points": T(6000, 200000),
             "TestC10TorsionList": LIST(),
